@@ -277,8 +277,9 @@ func suiteConc(t *testing.T, cfg cfgT) {
 		for _, s := range egUsers {
 			pool.add(s)
 		}
-		pool.add("m1")
-		pool.add("m2")
+		for _, x := range []string{"m1", "m2", "l1", "l2", "l3"} {
+			pool.add(x)
+		}
 		pool.addNet(a.nid, 1)
 		eeA := &engineEnv{e: a, pool: pool, nss: nss, strict: strict, gdepth: 60, width: 100}
 		eeA.header(out)
@@ -289,8 +290,35 @@ func suiteConc(t *testing.T, cfg cfgT) {
 			mt, motifQ = egMotif(hr, nss)
 			eeA.insert(t, mt)
 		}
+		// a depth ladder: the SAME tuple asked with different max-depth gets different answers; concurrent requests for
+		// one tuple must not share an answer
+		var ladderQ *ketoapi.RelationTuple
+		if !strict {
+			for _, ns := range nss[1:] {
+				for _, rel := range ns.Relations {
+					if rel.SubjectSetRewrite == nil && ladderQ == nil {
+						mk := func(o string, sid *string, ss *ketoapi.SubjectSet) *ketoapi.RelationTuple {
+							return &ketoapi.RelationTuple{Namespace: ns.Name, Object: o, Relation: rel.Name, SubjectID: sid, SubjectSet: ss}
+						}
+						u := egUsers[0]
+						eeA.insert(t, []*ketoapi.RelationTuple{
+							mk("l1", nil, &ketoapi.SubjectSet{Namespace: ns.Name, Object: "l2", Relation: rel.Name}),
+							mk("l2", nil, &ketoapi.SubjectSet{Namespace: ns.Name, Object: "l3", Relation: rel.Name}),
+							mk("l3", &u, nil)})
+						ladderQ = mk("l1", &u, nil)
+					}
+				}
+			}
+		}
 		eeA.table(out)
 		reqs := concRequests(hr, nss, motifQ)
+		if ladderQ != nil {
+			for _, rd := range []int{1, 2, 3, 4, 0} {
+				q, rd := ladderQ, rd
+				reqs = append(reqs, &concReq{kind: "echeck", desc: fmt.Sprintf("echeck %s %d", fmtTuple(q), rd), tuple: q, depth: rd,
+					run: func(e *env) string { return checkVia(e, q, rd) }})
+			}
+		}
 		// alone, on the warm registry
 		alone := make([]string, len(reqs))
 		for i, q := range reqs {
